@@ -408,3 +408,38 @@ def run_cli(exe, args, cwd, stdin_data=None, env=None, timeout=60):
     if r.returncode in (98, 99) or r.returncode < 0 or "Sanitizer" in se or "runtime error" in se:
         return r.returncode, r.stdout, se, summarize_crash(r.returncode, se)
     return r.returncode, r.stdout, se, "ok"
+
+
+def build_vh_ro(ctx):
+    """Variant of the harness in which the library is a shared object whose writable segments are
+    mprotect()ed read-only at start-up: any write to a library global faults (no sanitizer here)."""
+    bdir = os.path.join(ctx.tmp, "vhro-build")
+    os.makedirs(bdir, exist_ok=True)
+    inc = ["-I", REPO, "-I", os.path.join(REPO, "lib"), "-I", os.path.join(REPO, "lib", "public"),
+           "-I", HARNESS, "-DHAVE_CONFIG_H", "-w"]
+    libs = [f for f in lib_sources() if f != "lha_arch_unix.c"]
+    jobs, lobjs = [], []
+    for lf in libs:
+        o = os.path.join(bdir, "l_" + lf[:-2] + ".o")
+        lobjs.append(o)
+        jobs.append(["clang", "-O1", "-g", "-fPIC"] + inc + ["-c", os.path.join(REPO, "lib", lf), "-o", o])
+    hobjs = []
+    for hf in ["vh.c", "ops_crc.c", "ops_reader.c"]:
+        o = os.path.join(bdir, "h_" + hf[:-2] + ".o")
+        hobjs.append(o)
+        jobs.append(["clang", "-O1", "-g", "-DVH_RO_GLOBALS", "-DVH_NO_WRAP", "-DVH_WITH_READER"] + inc +
+                    ["-c", os.path.join(HARNESS, hf), "-o", o])
+    with ThreadPoolExecutor(JOBS) as ex:
+        res = list(ex.map(_cc, jobs))
+    errs = [e for rc, e in res if rc != 0]
+    if errs:
+        return None, "\n".join(errs)[-4000:]
+    so = os.path.join(bdir, "liblhasa_ro.so")
+    rc, err = _cc(["clang", "-shared", "-Wl,-z,now", "-Wl,-z,relro"] + lobjs + ["-o", so])
+    if rc != 0:
+        return None, err[-3000:]
+    exe = os.path.join(bdir, "vh_ro")
+    rc, err = _cc(["clang", "-rdynamic"] + hobjs + ["-L", bdir, "-llhasa_ro", "-Wl,-rpath," + bdir, "-Wl,-z,now", "-ldl", "-o", exe])
+    if rc != 0:
+        return None, err[-3000:]
+    return exe, ""
